@@ -21,7 +21,8 @@ class C15(scen.WorldProp):
                 "Wheatley.C15.lookToRest_keeps",
                 "Wheatley.C15.resume_anchors_with_current_hold_up",
                 "Wheatley.C15.speed_change_keeps_waiting",
-                "Wheatley.C15.pull_off_survives_delivery"]
+                "Wheatley.C15.pull_off_survives_delivery",
+                "Wheatley.C15.silent_until_the_leader_pulls_off"]
     level_text = ("theorems (any ordered field): initialise_line anchors the line at Look To + 3 s when Wheatley leads "
                   "and at the 'not yet' sentinel when a human leads; with the sentinel a user-controlled turn is the "
                   "pull-off loop, which cannot end before the leader's strike re-anchors the line at that strike's "
